@@ -50,9 +50,7 @@ func (e *Exec) execInstr(f *frame, in ssa.Instruction, h *Heap, g string) (*Heap
 			f.vals[x] = e.freshVal("phi_"+x.Comment, x.Type())
 		}
 	case *ssa.Alloc:
-		e.allocN++
-		ref := fmt.Sprintf("alloc_%d", e.allocN)
-		e.s.declConst(ref, "Ref")
+		ref := e.newAlloc()
 		et := x.Type().(*types.Pointer).Elem()
 		e.storeObj(h, ref, et, e.zero(et))
 		e.priv = append(e.priv, &privRef{ref: ref, comps: e.objComps(et)})
@@ -177,9 +175,7 @@ func (e *Exec) execInstr(f *frame, in ssa.Instruction, h *Heap, g string) (*Heap
 	case *ssa.TypeAssert:
 		e.typeAssert(f, x, &g, h)
 	case *ssa.MakeSlice:
-		e.allocN++
-		ref := fmt.Sprintf("alloc_%d", e.allocN)
-		e.s.declConst(ref, "Ref")
+		ref := e.newAlloc()
 		st := x.Type().Underlying().(*types.Slice)
 		comp := e.elemComp(st.Elem())
 		h.m[comp] = store(e.hget(h, comp), ref, fmt.Sprintf("((as const %s) %s)", e.s.arrSort(e.s.sortOf(st.Elem())), e.zero(st.Elem())))
@@ -190,9 +186,7 @@ func (e *Exec) execInstr(f *frame, in ssa.Instruction, h *Heap, g string) (*Heap
 	case *ssa.Slice:
 		e.sliceOp(f, x, h, &g)
 	case *ssa.MakeMap:
-		e.allocN++
-		ref := fmt.Sprintf("alloc_%d", e.allocN)
-		e.s.declConst(ref, "Ref")
+		ref := e.newAlloc()
 		mt := x.Type().Underlying().(*types.Map)
 		dc, vc := e.mapComps(mt)
 		ks := e.s.sortOf(mt.Key())
@@ -210,6 +204,13 @@ func (e *Exec) execInstr(f *frame, in ssa.Instruction, h *Heap, g string) (*Heap
 		if len(v.Allocs) > 0 && !e.isPrivateRef(m.T) {
 			e.escape(v)
 		}
+		for _, vi := range e.eng.valInvs(mt.Elem()) {
+			if e.wantClause(vi.c) && e.specDepth == 0 {
+				e.callOrd["valinv:"+vi.c.Label]++
+				t := e.evalSpec(e.eng.ld.specFunc(vi.fs, vi.c), []Val{v}, h, nil)
+				e.addObligation(f, "valinv", vi.c, fmt.Sprintf("valinv.%s@%s%d", labelOr(vi.c, "inv"), f.path, e.callOrd["valinv:"+vi.c.Label]), g, t, in.Pos())
+			}
+		}
 		h.m[dc] = e.nameIfBig("h", e.compSort[dc], store(e.hget(h, dc), m.T, store(sel(e.hget(h, dc), m.T), k.T, "true")))
 		h.m[vc] = e.nameIfBig("h", e.compSort[vc], store(e.hget(h, vc), m.T, store(sel(e.hget(h, vc), m.T), k.T, v.T)))
 	case *ssa.Lookup:
@@ -221,6 +222,12 @@ func (e *Exec) execInstr(f *frame, in ssa.Instruction, h *Heap, g string) (*Heap
 			dom := sel(sel(e.hget(h, dc), m.T), k.T)
 			vv := sel(sel(e.hget(h, vc), m.T), k.T)
 			val := ite(dom, vv, e.zero(mt.Elem()))
+			if e.specDepth == 0 && e.pure == 0 {
+				for _, vi := range e.eng.valInvs(mt.Elem()) {
+					t := e.evalSpec(e.eng.ld.specFunc(vi.fs, vi.c), []Val{{T: vv, Typ: mt.Elem()}}, h, nil)
+					e.s.assert(implies(and(g, dom), t))
+				}
+			}
 			if x.CommaOk {
 				e.set(f, x, Val{Tup: []Val{{T: e.named("lk", mt.Elem(), val), Typ: mt.Elem()}, {T: dom, Typ: types.Typ[types.Bool]}}})
 			} else {
@@ -239,13 +246,23 @@ func (e *Exec) execInstr(f *frame, in ssa.Instruction, h *Heap, g string) (*Heap
 		it := e.val(f, x.Iter)
 		tup := x.Type().(*types.Tuple)
 		okv := e.freshVal("next_ok", types.Typ[types.Bool])
-		kv := e.freshVal("next_k", tup.At(1).Type())
-		vv := e.freshVal("next_v", tup.At(2).Type())
+		mk := func(p string, t types.Type) Val {
+			if b, ok := t.(*types.Basic); ok && b.Kind() == types.Invalid {
+				return Val{Typ: t}
+			}
+			return e.freshVal(p, t)
+		}
+		kv := mk("next_k", tup.At(1).Type())
+		vv := mk("next_v", tup.At(2).Type())
 		if it.DynT != nil {
 			if mt, ok := it.DynT.Underlying().(*types.Map); ok && !x.IsString {
 				dc, vc := e.mapComps(mt)
 				e.guardedComp(f, dc, h, g, in)
-				e.s.assert(implies(okv.T, and(sel(sel(e.hget(h, dc), it.T), kv.T), eq(vv.T, sel(sel(e.hget(h, vc), it.T), kv.T)))))
+				if kv.T != "" && vv.T != "" {
+					e.s.assert(implies(okv.T, and(sel(sel(e.hget(h, dc), it.T), kv.T), eq(vv.T, sel(sel(e.hget(h, vc), it.T), kv.T)))))
+				} else if kv.T != "" {
+					e.s.assert(implies(okv.T, sel(sel(e.hget(h, dc), it.T), kv.T)))
+				}
 			}
 		}
 		e.set(f, x, Val{Tup: []Val{okv, kv, vv}})
@@ -258,9 +275,7 @@ func (e *Exec) execInstr(f *frame, in ssa.Instruction, h *Heap, g string) (*Heap
 			bs = append(bs, bv)
 			allocs = append(allocs, bv.Allocs...)
 		}
-		e.allocN++
-		ref := fmt.Sprintf("alloc_%d", e.allocN)
-		e.s.declConst(ref, "Ref")
+		ref := e.newAlloc()
 		e.set(f, x, Val{T: ref, Clo: &closure{fn: fn, bindings: bs}, Allocs: allocs})
 	case *ssa.Defer:
 		d := deferred{call: &x.Call, block: x.Block(), instr: x}
@@ -298,9 +313,7 @@ func (e *Exec) execInstr(f *frame, in ssa.Instruction, h *Heap, g string) (*Heap
 		e.set(f, x, e.freshVal("select", x.Type()))
 		e.drop("select")
 	case *ssa.MakeChan:
-		e.allocN++
-		ref := fmt.Sprintf("alloc_%d", e.allocN)
-		e.s.declConst(ref, "Ref")
+		ref := e.newAlloc()
 		e.set(f, x, Val{T: ref})
 	case *ssa.Panic:
 		return h, "false"
@@ -736,9 +749,7 @@ func (e *Exec) convert(f *frame, x *ssa.Convert, h *Heap) Val {
 		if sl, ok := to.Underlying().(*types.Slice); ok {
 			fn := "str2bytes_" + sanitize(e.s.sortOf(sl.Elem()))
 			e.s.declFun(fn, []string{e.s.strSort()}, e.s.arrSort(e.s.sortOf(sl.Elem())))
-			e.allocN++
-			ref := fmt.Sprintf("alloc_%d", e.allocN)
-			e.s.declConst(ref, "Ref")
+			ref := e.newAlloc()
 			comp := e.elemComp(sl.Elem())
 			h.m[comp] = store(e.hget(h, comp), ref, "("+fn+" "+v.T+")")
 			e.priv = append(e.priv, &privRef{ref: ref, comps: []string{comp}})
@@ -817,7 +828,7 @@ func (e *Exec) checkNonNil(f *frame, a *Addr, g *string, in ssa.Instruction) {
 	if !e.nopanic || a.Comp != "" && strings.HasPrefix(a.Comp, "G|") {
 		return
 	}
-	if strings.HasPrefix(a.Ref, "alloc_") {
+	if isAllocRef(a.Ref) {
 		return
 	}
 	e.checkCond(f, "nil", not(eq(a.Ref, "null")), g, in)
